@@ -70,7 +70,11 @@ class C09(Spec):
     RULE = ('gated / enveloped (every window, rise None included) / fixed / repeated stimuli over constant-one and other '
             'carriers, fs from the seven rates, times on and off the sample grid and at .5 ties, drawn along random and '
             'boundary partitions that run past the end, bookkeeping read after every draw; rejected rise times; '
-            'non-trivial = history with >= 2 chunks that crosses the end of the stimulus.')
+            'non-trivial = history with >= 2 chunks that crosses the end of the stimulus. Hardening block (kinds tagged '
+            '/var /hist /scale /many): constructor spellings, value representations and options as in C01, the '
+            'FixedWaveform subclasses (n_samples = array length), IIR/FIR noise carriers, a repeat of a repeat; reset() '
+            'before any draw / mid-way / after completion / twice with the bookkeeping re-read, get_samples_remaining(), '
+            'NumPy integer chunk sizes, the caller overwriting the chunks; stimuli of 2^16..2^20 samples.')
     exhaustive_note = {
         'thorough': 'all 2^(N-1) partitions of N = total+3 <= 12 for every (start, duration, rise) <= (2, 6, 3) gate and '
                     'cosine-squared envelope over a constant-one carrier',
